@@ -76,6 +76,8 @@ Proof. exact (conj nocopy_breaks_frame nocopy_changes_view). Qed.
 Print Assumptions C05_copy_needed_refuted.
 
 (* ---- obligations re-proved on every run over the regenerated inventory ---- *)
+(* diagnostics for a broken obligation: functions whose write/copy sites are not (exactly) reviewed *)
+Eval vm_compute in (map mf_fn (filter (fun m => negb (fn_reviewed reviewed_mut_fns m)) mutation_sites)).
 Theorem C05_mutation_sites_covered :
   forallb (fn_reviewed reviewed_mut_fns) mutation_sites = true.
 Proof. vm_compute. reflexivity. Qed.
